@@ -732,6 +732,10 @@ def gen_logic(rng, depth):
             x["cons"] = {k: v for k, v in x["cons"].items() if k not in ("const", "enum")} or ({"ge": 0} if p == "int" else {"max_length": 8})
             x.pop("lax", None)
         return {"k": "logic", "op": op, "ts": [a, b]}
+    if op == "oneOf" and rng.random() < 0.3:
+        a = {"k": "scalar", "p": "str", "cons": {"regex": rng.choice(["[a-z]+", "\\d+", "[a-c]*"])}}
+        b = {"k": "scalar", "p": "str", "cons": {"length": rng.choice([1, 2, 3])}}
+        return {"k": "logic", "op": op, "ts": [a, b] if rng.random() < 0.5 else [b, a]}
     if op == "oneOf":
         for _ in range(10):
             x = gen_ty(rng, max(depth - 1, 0), "item")
@@ -937,12 +941,13 @@ def _samples(t, rng, n=2):
             while out and len(out) < n:
                 out.append(out[-1])
             return out[:n]
+        if t["op"] == "oneOf" and all(x["k"] == "scalar" and x["p"] == "str" for x in t["ts"]):
+            return [v for v in STR_POOL if sum(_sat_str(x["cons"], v) for x in t["ts"]) == 1]
         out = []
         for x in t["ts"]:
             for v in samples(x, rng, 2):
                 if v not in out:
                     out.append(v)
-        # a value of one argument first whose JSON form no other argument would convert differently: keep order
         while out and len(out) < n:
             out.append(out[-1])
         return out[:n]
@@ -966,7 +971,8 @@ def attach_samples(t, rng):
     ok = True
     if k == "data":
         for f in t["fields"]:
-            ok = attach_samples(f["ty"], rng) and ok
+            if not attach_samples(f["ty"], rng):
+                return False
             if f.get("prop"):
                 continue
             s = samples(f["ty"], rng, 2)
@@ -983,13 +989,13 @@ def attach_samples(t, rng):
     elif k in ("seq",):
         ok = attach_samples(t["item"], rng)
     elif k == "tup":
-        for x in t["items"]:
-            ok = attach_samples(x, rng) and ok
+        ok = all([attach_samples(x, rng) for x in t["items"]])
     elif k == "map":
         ok = attach_samples(t["key"], rng) and attach_samples(t["val"], rng)
     elif k == "logic":
-        for x in t["ts"]:
-            ok = attach_samples(x, rng) and ok
+        ok = all([attach_samples(x, rng) for x in t["ts"]])
+    if ok and k != "data" and not samples(t, rng, 1):
+        return False
     return ok
 
 
@@ -1004,6 +1010,8 @@ def variants(v, rng):
         out += [str(v), v + 0.5, int(v)]
     elif isinstance(v, str):
         out += [v + "z", v.upper(), v[:1], 7]
+        if re.fullmatch(r"-?\d+(\.\d+)?", v):
+            out += ["1e20", "-123456789012345678901234567890", "NaN", "0.5"]
     elif isinstance(v, list):
         out += [v + v[:1], v[:-1], [variants(x, rng)[0] if variants(x, rng) else x for x in v], "x"]
     elif isinstance(v, dict):
@@ -1237,6 +1245,29 @@ def _patch_unsafe(enc, pv):
     return enc
 
 
+def _relax_oneof(doc):
+    if isinstance(doc, dict):
+        return {("anyOf" if k == "oneOf" else k): _relax_oneof(v) for k, v in doc.items()}
+    if isinstance(doc, list):
+        return [_relax_oneof(v) for v in doc]
+    return doc
+
+
+UNMAPPED = ("length", "max_digits", "decimal_places")
+
+
+def _has_weak_oneof(t):
+    """a oneOf with an argument that carries a constraint the generator has no keyword for"""
+    if isinstance(t, dict):
+        if t.get("k") == "logic" and t.get("op") == "oneOf":
+            if any(k in UNMAPPED for x in t["ts"] if isinstance(x.get("cons"), dict) for k in x["cons"]):
+                return True
+        return any(_has_weak_oneof(v) for v in t.values())
+    if isinstance(t, list):
+        return any(_has_weak_oneof(v) for v in t)
+    return False
+
+
 def _class_mode(case):
     return case["ty"]["opts"].get("mode") if case["ty"]["k"] == "data" else None
 
@@ -1248,8 +1279,8 @@ class C13(Check):
     impl = "harness.c13:impl"
     uses_extract = True
     case_timeout = 20.0
-    budget = {"quick": 700, "thorough": 9000}
-    search_budget = {"quick": 900, "thorough": 6000}
+    budget = {"quick": 2500, "thorough": 40000}
+    search_budget = {"quick": 1500, "thorough": 8000}
     rule = ("random declarations: data classes (1-5 fields over the Field parameter product: alias, alias_from, required "
             "bool/mode-string, default/default_factory, defer_default, no_input/no_output bool/mode-string, mode/readonly/"
             "writeonly, Final, dependencies, annotations, getter-only property; class Options mode/addition(None,False,True,"
@@ -1333,6 +1364,8 @@ class C13(Check):
             s = io.get(key)
             if s and "doc" in s and not _has_nonjson(s["doc"]):
                 jobs.append((key, {"schema": s["doc"], "instances": insts}))
+                if key.endswith("_out") and '"oneOf"' in json.dumps(s["doc"]):
+                    jobs.append((key + "_anyof", {"schema": _relax_oneof(s["doc"]), "instances": encs}))
         return jobs
 
     def evaluate(self, cases):
@@ -1421,6 +1454,8 @@ class C13(Check):
                 return f"encoder: impl={json.dumps(o['enc'])[:200]} model={json.dumps(m['enc'])[:200]}"
             if not m["conforms"] and not self._mode_override(case):
                 return f"a value the parser returned does not satisfy `conforms` (hypothesis of C13_outputs_validate): {json.dumps(o['pv'])[:300]}"
+            if m["conforms"] and m["safe"] and m["oneOfOk"] and not m["valid_model"]:
+                return f"driver contradicts theorem C13_outputs_validate_partial on {json.dumps(o['pv'])[:300]}"
             if lib_out and lib_out["check"] and isinstance(lib_out["valid"][k], bool) and m["valid_real"] is not None:
                 if m["valid_real"] != lib_out["valid"][k]:
                     return f"validator (real output schema): Lean={m['valid_real']} jsonschema={lib_out['valid'][k]} on {json.dumps(o['enc'])[:200]}"
@@ -1553,6 +1588,18 @@ class C13(Check):
                             bad_other = True
             if bad_plain and not bad_other:
                 return "decimal-unsafe-string"
+            # a oneOf branch whose schema is weaker than its parser (unmapped constraint) also accepts the output
+            if _has_weak_oneof(case["ty"]):
+                relaxed_ok = True
+                for key in ("schema_out", "defs_out"):
+                    lib, rel = js.get(key), js.get(key + "_anyof")
+                    if not lib:
+                        continue
+                    for k, o in enumerate(outs):
+                        if lib["valid"][k] is False and not (rel and rel["valid"][k] is True):
+                            relaxed_ok = False
+                if relaxed_ok:
+                    return "oneof-weaker-branch"
         if self._mode_override(case) and (why.startswith("properties") or why.startswith("required") or why.startswith("outputs-validate")):
             # the generator ignored `mode=`: the document is the class-mode one, and it is right for the class mode
             if self._spec(case, io, io.get("probe_classmode"), structure_only=True) is None and self._classmode_outputs_ok(case, io):
